@@ -1639,3 +1639,15 @@ VARIANTS.append({'id': 'r11fix-zip-right', 'property': None, 'expect': [], 'kind
                  'edits': [E(BC, "buf.extend(self.try_iter().zip(0..max).map(|(val, _)| val));", "buf.extend((0..max).zip(self.try_iter()).map(|(_, val)| val));"),
                            E(MP, "buf.extend(self.try_iter().zip(0..max).map(|(val, _)| val));", "buf.extend((0..max).zip(self.try_iter()).map(|(_, val)| val));")],
                  'note': 'try_recv_many repaired: the counter is on the left of the zip, the receive iterator is only pulled when a value will be delivered'})
+
+# ---- round 12 (performance / defensive / type-level commits)
+for (_id, _seed, _prop, _exp, _note) in [
+        ('r12-view-bound-not-hrtb', 'C04-r12', 'C04', ['P4r'], 'the view closure bound names the method lifetime: the result may contain the &T'),
+        ('r12-start-threshold-eq', 'C17-r12', 'C17', ['P12f'], 'a reclamation cycle is started only when the backlog equals a threshold'),
+        ('r12-fut-into-blocking', 'C14-r12', 'C14', ['S8'], 'a futures receiver converted into a plain receiver of the same queue'),
+        ('r12-uni-deref-multi', 'C01-r12', 'C01', ['S8'], 'Deref from the single-consumer receiver to the multi-consumer one'),
+        ('r12-recycled-counter-cell', 'C09-r12', 'C09', ['P5n'], 'a recycled consumer-counter cell is not re-initialised')]:
+    VARIANTS.append({'id': _id, 'property': _prop, 'expect': _exp, 'edits': [], 'kind': 'violating',
+                     'patch': _os.path.join(_SEED, _seed, 'patch.diff'), 'note': _note})
+VARIANTS.append({'id': 'r12-increment-in-debug-assert', 'property': 'C07', 'expect': ['S9'], 'edits': [], 'kind': 'violating',
+                 'patch': _os.path.join(_SEED, 'C07-r12', 'patch.diff'), 'note': 'the writer-count increment of Clone for InnerSend written inside debug_assert!'})
